@@ -6,7 +6,7 @@ import (
 
 // clone builds an independent network with the same topology and the same (symbolic) weights.
 func (t *tNet) clone() *tNet {
-	c := &tNet{nSensors: t.nSensors, from: t.from, to: t.to, w: t.w, neuronsFirst: t.neuronsFirst}
+	c := &tNet{nSensors: t.nSensors, from: t.from, to: t.to, w: t.w, neuronsFirst: t.neuronsFirst, outsReversed: t.outsReversed}
 	for _, n := range t.all {
 		m := NewNNode(n.Id, n.NeuronType)
 		m.ActivationType = n.ActivationType
@@ -26,7 +26,7 @@ func (t *tNet) clone() *tNet {
 		c.all[t.to[k]].ConnectFrom(c.all[t.from[k]], t.w[k])
 	}
 	inputs := append(append([]*NNode{}, c.ins...), c.bias...)
-	c.net = NewNetwork(inputs, c.outs, c.listed(), 2)
+	c.net = NewNetwork(inputs, c.outList(), c.listed(), 2)
 	return c
 }
 
